@@ -9,6 +9,7 @@ pub enum Prog {
     ToDeep(Box<Prog>), ToFlat(Box<Prog>), Compile(Box<Prog>),
     Bin(String, Box<Prog>, Box<Prog>), Un(String, Box<Prog>),
     Subs(Box<Prog>, Vec<(String, Prog)>),
+    ReFlat(Box<Prog>), ReDeep(Box<Prog>),
 }
 #[derive(Clone, Debug, PartialEq)]
 pub enum Query { Vars, Eval(usize), Relaxed(usize), EvalVec(usize), Unparse, BinReprs, UnReprs, OpReprs }
@@ -39,6 +40,8 @@ pub fn run(p: &Prog) -> ExResult<Expr> {
             }
         }
         Prog::Un(name, p) => match run(p)? { Expr::F(f) => Expr::F(f.operate_unary(leak(name))?), Expr::D(d) => Expr::D(d.operate_unary(leak(name))?) },
+        Prog::ReFlat(p) => { let t = match run(p)? { Expr::F(f) => f.unparse().to_string(), Expr::D(d) => d.unparse().to_string() }; Expr::F(FE::parse(leak(&t))?) }
+        Prog::ReDeep(p) => { let t = match run(p)? { Expr::F(f) => f.unparse().to_string(), Expr::D(d) => d.unparse().to_string() }; Expr::D(DE::parse(leak(&t))?) }
         Prog::Subs(p, m) => {
             let a = run(p)?;
             let mut reps: Vec<(String, Expr)> = vec![];
@@ -75,7 +78,7 @@ pub fn answer(e: &Expr, q: &Query) -> Obs {
         }
         (Query::EvalVec(_), Expr::D(_)) => Obs::Skip,
         (Query::Unparse, Expr::D(d)) => Obs::Str(d.unparse().to_string()),
-        (Query::Unparse, Expr::F(_)) => Obs::Skip,
+        (Query::Unparse, Expr::F(f)) => Obs::Str(f.unparse().to_string()),
         (Query::BinReprs, Expr::F(f)) => Obs::S(f.binary_reprs().to_vec()),
         (Query::BinReprs, Expr::D(d)) => Obs::S(d.binary_reprs().to_vec()),
         (Query::UnReprs, Expr::F(f)) => Obs::S(f.unary_reprs().to_vec()),
@@ -112,6 +115,8 @@ pub fn g_prog(p: &Prog) -> String {
         Prog::Compile(p) => format!("(PCompile {})", g_prog(p)),
         Prog::Bin(n, p, q) => format!("(PBin {} {} {})", g_str(n), g_prog(p), g_prog(q)),
         Prog::Un(n, p) => format!("(PUn {} {})", g_str(n), g_prog(p)),
+        Prog::ReFlat(p) => format!("(PReFlat {})", g_prog(p)),
+        Prog::ReDeep(p) => format!("(PReDeep {})", g_prog(p)),
         Prog::Subs(p, m) => format!("(PSubs {} [{}])", g_prog(p), m.iter().map(|(x, q)| format!("({}, {})", g_str(x), g_prog(q))).collect::<Vec<_>>().join("; ")),
     }
 }
@@ -141,6 +146,8 @@ pub fn pretty_prog(p: &Prog) -> String {
         Prog::Compile(p) => format!("{}.compile()", pretty_prog(p)),
         Prog::Bin(n, p, q) => format!("{}.operate_binary({}, {n:?})", pretty_prog(p), pretty_prog(q)),
         Prog::Un(n, p) => format!("{}.operate_unary({n:?})", pretty_prog(p)),
+        Prog::ReFlat(p) => format!("FlatEx::parse({}.unparse())", pretty_prog(p)),
+        Prog::ReDeep(p) => format!("DeepEx::parse({}.unparse())", pretty_prog(p)),
         Prog::Subs(p, m) => format!("{}.subs({{{}}})", pretty_prog(p), m.iter().map(|(x, q)| format!("{x} -> {}", pretty_prog(q))).collect::<Vec<_>>().join(", ")),
     }
 }
